@@ -290,8 +290,11 @@ fn check_query(c: &Query, obs: &mut Obs) -> Result<(), String> {
     // the representations
     let pset: PartialDSet = ds.to_partial_dset();
     let sset: SimpleDSet = ds.to_simple_dset();
-    let psym: PartialDSym = ds.to_partial();
+    let psym: PartialDSym = ds.to_partial_fresh();
+    // the same value reached through a history: other branching numbers, every query, then set_v
+    let hist: PartialDSym = ds.to_partial_with_history();
     let ssym: SimpleDSym = ds.to_simple();
+    let shist: SimpleDSym = SimpleDSym::from(hist.clone());
     let parsed: PartialDSym = ds.text().parse().map_err(|e| format!("cannot parse own text {}: {}", ds.text(), e))?;
     let conv1 = as_partial_dsym(&ssym);
     let conv2 = as_dset(&ssym);
@@ -301,6 +304,11 @@ fn check_query(c: &Query, obs: &mut Obs) -> Result<(), String> {
     check_dset_queries(&sset, ds, "SimpleDSet", true)?;
     check_dset_queries(&psym, ds, "PartialDSym(built)", true)?;
     check_dset_queries(&parsed, ds, "PartialDSym(parsed)", true)?;
+    check_dset_queries(&hist, ds, "PartialDSym(re-assigned through set_v after having been read)", true)?;
+    check_dsym_queries(&hist, ds, "PartialDSym(re-assigned through set_v after having been read)")?;
+    check_dsym_queries(&shist, ds, "SimpleDSym(from a re-assigned PartialDSym)")?;
+    ensure!(hist == psym, "a PartialDSym that was re-assigned through set_v differs (==) from a freshly built one");
+    ensure!(format!("{}", hist) == format!("{}", psym), "a PartialDSym that was re-assigned through set_v prints as {}, a freshly built one as {}", hist, psym);
     check_dset_queries(&ssym, ds, "SimpleDSym", true)?;
     check_dset_queries(&conv1, ds, "as_partial_dsym(SimpleDSym)", true)?;
     check_dset_queries(&conv2, ds, "as_dset(SimpleDSym)", true)?;
